@@ -134,10 +134,61 @@ func c17IndepOps(in *c17indep) []c17op {
 		{"indep.Sanitize", func(_ *c17shared, a int) string {
 			return influxql.Sanitize("create user u with password '" + in.strs[a%len(in.strs)] + "'; " + in.texts[a%len(in.texts)])
 		}},
+		{"indep.Language.Clone+customise", func(_ *c17shared, a int) string {
+			// an embedding server extends its own copy of the dispatch tree while
+			// other goroutines parse with the process-wide one
+			cl := influxql.Language.Clone()
+			n := customiseLanguage(cl)
+			foreignText := []string{"SHOW TAG STATS", "KILL ANY", "SHOW GRANTS ANY", "ALL ANY ALL"}[a%4]
+			s1, e1 := cl.Parse(influxql.NewParser(strings.NewReader(foreignText)))
+			_, e2 := influxql.ParseStatement(foreignText)
+			s3, e3 := influxql.ParseStatement("KILL QUERY 4")
+			if e2 == nil {
+				return "default Language accepts a statement registered only on a clone: " + foreignText
+			}
+			return fmt.Sprint(n, dumpOf(s1), e1, e2, dumpOf(s3), e3)
+		}},
 		{"indep.Lookup", func(_ *c17shared, a int) string {
 			return fmt.Sprint(influxql.Lookup(gen.Keywords[a%len(gen.Keywords)]), influxql.Lookup(in.strs[a%len(in.strs)]))
 		}},
 	}
+}
+
+// c17Fresh runs every independent entry point on lexemes no call in this
+// process has seen before (names, patterns, literals, durations derived from
+// uid), so that anything memoised per value is being filled in while other
+// goroutines read it. Results are compared with the same call made alone
+// after the concurrent phase.
+func c17Fresh(uid int64) string {
+	var sb strings.Builder
+	text := fmt.Sprintf("SELECT f%[1]d, mean(\"g %[1]d\") FROM db%[1]d.rp%[1]d./^m%[1]d.*/ WHERE h%[1]d =~ /^(a|b)%[1]d$/ AND s != 's%[1]d' AND time > now() - %[2]dns GROUP BY time(%[2]dms), /t%[1]d/ TZ('UTC'); SHOW TAG VALUES FROM m%[1]d WITH KEY =~ /k%[1]d/; CREATE USER u%[1]d WITH PASSWORD 'pw%[1]d'", uid, uid+1)
+	q, err := influxql.ParseQuery(text)
+	if err != nil {
+		sb.WriteString("ERR " + err.Error())
+	} else {
+		sb.WriteString(q.String())
+		if sel, ok := q.Statements[0].(*influxql.SelectStatement); ok {
+			sb.WriteString(fmt.Sprint(sel.ColumnNames()))
+			pr, _ := sel.RequiredPrivileges()
+			sb.WriteString(fmt.Sprint(pr))
+			sb.WriteString(sel.Clone().String())
+		}
+	}
+	e, err := influxql.ParseExpr(fmt.Sprintf("a%[1]d + %[1]d * (c - %[1]d.5) > 0 AND h =~ /x%[1]d/ OR d = %[1]dh", uid))
+	sb.WriteString(fmt.Sprint(e, err))
+	d := time.Duration(uid*7919 + 1)
+	fs := influxql.FormatDuration(d)
+	pd, err := influxql.ParseDuration(fs)
+	sb.WriteString(fmt.Sprint(fs, pd, err))
+	name := fmt.Sprintf("n %d\"q", uid)
+	sb.WriteString(influxql.QuoteIdent(name, fmt.Sprintf("rp%d", uid)) + influxql.QuoteString(name) + fmt.Sprint(influxql.IdentNeedsQuotes(name), influxql.Lookup(fmt.Sprintf("kw%d", uid))))
+	sb.WriteString(influxql.Sanitize(fmt.Sprintf("set password for u%[1]d = 'secret%[1]d'", uid)))
+	return sb.String()
+}
+
+type c17freshRec struct {
+	uid int64
+	got string
 }
 
 type c17result struct {
@@ -251,6 +302,9 @@ func c17Worker(args []string) int {
 		for _, op := range indepOps {
 			for a := 0; a < 24; a++ {
 				twin[key(op.name, 0, a)] = op.run(nil, a)
+				if strings.HasPrefix(twin[key(op.name, 0, a)], "default Language accepts") && atomic.AddInt64(&nmis, 1) <= 10 {
+					res.Mismatches = append(res.Mismatches, twin[key(op.name, 0, a)])
+				}
 				res.Cases = append(res.Cases, mon.Hash64(op.name+"|"+in.texts[a]+"|"+in.strs[a]))
 			}
 		}
@@ -263,6 +317,7 @@ func c17Worker(args []string) int {
 		start.Add(1)
 		var wg sync.WaitGroup
 		counts := make([]map[string]int64, ngor)
+		fresh := make([][]c17freshRec, ngor)
 		for g := 0; g < ngor; g++ {
 			wg.Add(1)
 			counts[g] = map[string]int64{}
@@ -271,6 +326,21 @@ func c17Worker(args []string) int {
 				rg := mon.NewRng(seed, "c17.sched", round*1000+g)
 				start.Wait()
 				for n := 0; n < nops; n++ {
+					if n%16 == 5 {
+						uid := int64(round)*10000000 + int64(g)*100000 + int64(n)
+						var got string
+						func() {
+							defer func() {
+								if v := recover(); v != nil {
+									got = fmt.Sprint("PANIC ", v)
+								}
+							}()
+							got = c17Fresh(uid)
+						}()
+						fresh[g] = append(fresh[g], c17freshRec{uid, got})
+						counts[g]["indep.fresh-lexemes"]++
+						continue
+					}
 					if rg.P(0.7) {
 						oi := rg.Intn(nso)
 						k := rg.Intn(K)
@@ -317,6 +387,9 @@ func c17Worker(args []string) int {
 						}
 					} else {
 						op := indepOps[rg.Intn(len(indepOps))]
+						if strings.HasPrefix(op.name, "indep.Language.Clone") && !rg.P(0.15) {
+							op = indepOps[rg.Intn(4)] // the tree copy is costly under the race detector: run it less often
+						}
 						a := rg.Intn(24)
 						got := op.run(nil, a)
 						counts[g][op.name]++
@@ -353,6 +426,18 @@ func c17Worker(args []string) int {
 						if atomic.AddInt64(&nmis, 1) <= 10 {
 							res.Mismatches = append(res.Mismatches, fmt.Sprintf("%s on shared AST %q: the call made alone after the concurrent phase returns %q, before it returned %q", op.name, trunc(sh.text, 300), trunc(got, 300), trunc(want, 300)))
 						}
+					}
+				}
+			}
+		}
+		for _, recs := range fresh {
+			for _, fr := range recs {
+				want := c17Fresh(fr.uid)
+				res.OpCounts["after.indep.fresh-lexemes"]++
+				res.Cases = append(res.Cases, mon.Hash64("fresh|"+strconv.FormatInt(fr.uid, 10)))
+				if fr.got != want {
+					if atomic.AddInt64(&nmis, 1) <= 10 {
+						res.Mismatches = append(res.Mismatches, fmt.Sprintf("fresh-lexeme calls (uid %d): concurrent result %q differs from the same calls made alone afterwards %q", fr.uid, trunc(fr.got, 300), trunc(want, 300)))
 					}
 				}
 			}
